@@ -22,6 +22,11 @@ import (
 func VerifC04Tuple() {
 	// mode 0: supported sizes; 1..3: wrong value length; 4: key of 65536 bytes
 	mode := verifChoice("mode", 5)
+	if verifParam("wrong_value_len", 1) == 0 {
+		// reuse under C01: the index writers always pass fixed-size encodings, so the value-length
+		// modes (C04's concern, known finding C04-S4-value-length) are outside that claim
+		verifAssume(mode == 0 || mode == 4)
+	}
 	sizes := []int{1, 8, 36}
 	vs := sizes[verifChoice("valueSize", len(sizes))]
 	klens := []int{0, 1, 255, 256, 65535}
